@@ -108,7 +108,7 @@ def run_assign_impl(case):
     from skmatter.neighbors import SparseKDE
     D, G, cell, w = _np_inputs(case)
     try:
-        est = SparseKDE(D, w, metric_params=None if cell is None else {"cell_length": cell})
+        est = SparseKDE(D, w, **K._metric_kwargs(case, cell))
         npts, neigh, labels, gw = est._assign_descriptors_to_grids(G)
         return dict(weights=[float(x) for x in est.weights], labels=[int(x) for x in labels],
                     npoints=[int(x) for x in npts], gweight=[float(x) for x in gw],
@@ -134,6 +134,13 @@ def _rhe(x):
     if r > Fraction(1, 2):
         return f + 1
     return f if f % 2 == 0 else f + 1
+
+
+def mdist_exact(case, p, g):
+    """squared distance of the case's metric (default if none) on the integer-scaled positions"""
+    if case.get("metric"):
+        return K.metric_exact(case["metric"], case["cell"], p, g)
+    return pdist_exact(case["cell"], p, g)
 
 
 def pdist_exact(cell, p, g):
@@ -163,11 +170,12 @@ def oracle_assign(case, rec):
     if len(rec["labels"]) != n:
         return "number of labels differs from the number of descriptors"
     for i in range(n):
-        row = [pdist_exact(cell, D[i], g) for g in G]
+        row = [mdist_exact(case, D[i], g) for g in G]
         j = rec["labels"][i]
         if not (0 <= j < ng) or row[j] != min(row):
-            return "descriptor %d assigned to grid %d at squared distance %s, nearest is at %s" % (
-                i, j, row[j] if 0 <= j < ng else None, min(row))
+            return "descriptor %d assigned to grid %d at squared distance %s%s, nearest is at %s" % (
+                i, j, row[j] if 0 <= j < ng else None,
+                " under the chosen metric %s" % case["metric"] if case.get("metric") else "", min(row))
         if j != row.index(min(row)):
             return "descriptor %d: tie not broken towards the first grid index" % i
     for j in range(ng):
@@ -245,6 +253,104 @@ def part_a(ctx, stats):
     return cases, recs
 
 
+# =============================================================================== part A, custom metrics
+def metric_rows_int(case):
+    """the metric's own distance matrix on the integer-scaled positions (exact), or None when the
+    binary64 evaluation of the very callable handed to SparseKDE is not exact on this input"""
+    rows = [[mdist_exact(case, p, g) for g in case["G"]] for p in case["D"]]
+    if any(x.denominator != 1 for r in rows for x in r):
+        return None
+    D, G, cell, _w = _np_inputs(case)
+    if len(D) and len(G):
+        got = np.asarray(K.make_metric(case["metric"])(D, G, squared=True, cell_length=cell), dtype=float)
+        s4 = float(1 << (2 * case["sbits"]))
+        want = np.array([[float(x) for x in r] for r in rows]) / s4
+        if got.shape != want.shape:
+            return None
+        if case["metric"]["kind"] == "perm":
+            # the default metric squares np.linalg.norm: a deterministic function of the exact sum of
+            # squares (equal sums give equal values), not the sum itself
+            if not np.allclose(got, want, rtol=1e-12, atol=0):
+                return None
+        elif not np.array_equal(got, want):
+            return None
+    return [[int(x) for x in r] for r in rows]
+
+
+def assign_rows_case_coq(case, rows, rec):
+    w = "None" if case["w"] is None else "(Some %s)" % qlist([Fraction(x) for x in case["w"]])
+    return "assign_rows_case_ok %s (1 # 1000000000000) %d%%nat %s %s %s %s %s %s %s" % (
+        "true" if case["exact"] else "false", len(case["G"]), C.zmat(rows), w, qlist(rec["weights"]),
+        C.natlist(rec["labels"]), C.zlist(rec["npoints"]), qlist(rec["gweight"]), natmat(rec["members"]))
+
+
+def part_am(ctx, stats):
+    """the assignment under a user-supplied metric (no cell and with a cell) against the metric-generic
+    model predict_rows (Model/SparseKDEM.v), which is fed the metric's own rows"""
+    ncases = 160 if ctx.quick else 2500
+    st = dict(cases=ncases, kinds={}, periodic=0, differs_from_default=0, inexact_skipped=0, errors=0,
+              ties=0, validated=0, nontrivial=0)
+    cases, recs, rowsl = [], [], []
+    for _ in range(ncases):
+        c = gen_assign_case(ctx.rng, ctx.quick)
+        c["metric"] = K.gen_metric(ctx.rng, c["d"])
+        rows = metric_rows_int(c)
+        if rows is None:
+            st["inexact_skipped"] += 1
+            continue
+        r = run_assign_impl(c)
+        cases.append(c)
+        recs.append(r)
+        rowsl.append(rows)
+        st["kinds"][c["metric"]["kind"]] = st["kinds"].get(c["metric"]["kind"], 0) + 1
+        st["periodic"] += c["cell"] is not None
+        if "error" in r:
+            st["errors"] += 1
+            continue
+        deflab = [min(range(len(c["G"])), key=lambda k, p=p: (pdist_exact(c["cell"], p, c["G"][k]), k)) for p in c["D"]]
+        metlab = [min(range(len(c["G"])), key=lambda k, row=row: (row[k], k)) for row in rows]
+        st["differs_from_default"] += deflab != metlab
+        st["ties"] += any(sum(1 for x in row if x == min(row)) > 1 for row in rows)
+        st["nontrivial"] += len(c["G"]) >= 2 and len(set(metlab)) >= 2 and deflab != metlab
+    idx = [i for i, r in enumerate(recs) if "error" not in r]
+    per = 130
+    groups = [idx[i:i + per] for i in range(0, len(idx), per)]
+    shards = []
+    for g in groups:
+        body = ";\n ".join(assign_rows_case_coq(cases[i], rowsl[i], recs[i]) for i in g)
+        shards.append(C.SHARD_HEAD + "From Verif Require Import ListX SparseKDE SparseKDEM.\nFrom Coq Require Import QArith.\n"
+                      "Open Scope Z_scope.\nDefinition verdicts : list bool := [\n %s].\n"
+                      "Eval vm_compute in (failing verdicts).\n" % body)
+    outs = C.run_shards(ctx.prop + "m", shards)
+    mismatched = [i for i, r in enumerate(recs) if "error" in r]
+    for g, (rc, out) in zip(groups, outs):
+        lists = C.parse_nat_lists(out)
+        if rc != 0 or len(lists) != 1:
+            C.report_violation(ctx, "C17 part A (custom metric): correspondence shard did not evaluate",
+                               dict(coq_output=out[-1500:]), found_input=False)
+            continue
+        mismatched += [g[k] for k in lists[0]]
+    seen_cat = set()
+    for i in sorted(set(mismatched)):
+        msg = oracle_assign(cases[i], recs[i])
+        rep = dict(case=cases[i], observed=recs[i], correspondence="assign_rows_case_ok (Model/SparseKDEM.v)")
+        if msg:
+            cat = category(msg)
+            if cat in seen_cat:
+                continue
+            seen_cat.add(cat)
+            C.report_violation(ctx, "C17 fails on the implementation (assignment under the chosen metric): " + msg,
+                               rep, key=None, found_input=True)
+        elif "corr" not in seen_cat:
+            seen_cat.add("corr")
+            rep["note"] = "model and implementation disagree but the brute-force oracle accepts the output"
+            C.report_violation(ctx, "C17 part A (custom metric): correspondence assignment model vs implementation broken",
+                               rep, found_input=False)
+    st["validated"] = len(idx) - len(set(mismatched) & set(idx))
+    stats["assignment_custom_metric"] = st
+    return st
+
+
 # =============================================================================== parts B, C
 def ocell(cell):
     return "None" if cell is None else "(Some %s)" % C.flist(cell)
@@ -304,6 +410,33 @@ def part_bc(ctx, stats):
             st["fit_errors"][r["error"]] = st["fit_errors"].get(r["error"], 0) + 1
         if "score_error" in r:
             st["score_errors"][r["score_error"]] = st["score_errors"].get(r["score_error"], 0) + 1
+    # ---- fitted estimators with a user-supplied metric (no cell and with a cell) ----------------------
+    st["custom_metric"] = dict(cases=0, kinds={}, periodic=0, labels_differ_from_default=0, metric_calls_min=None)
+    for _ in range(40 if ctx.quick else 300):
+        c = K.gen_fit_case(ctx.rng, ctx.quick)
+        c["metric"] = K.gen_metric(ctx.rng, c["d"])
+        try:
+            nonterm = K.predicted_nontermination(c, K.grid_weights_only(c))
+        except Exception:  # noqa
+            nonterm = False
+        if nonterm:
+            st["skipped_predicted_nontermination"] += 1
+            continue
+        est, r = K.fit_impl(c)
+        if est is not None:
+            K.score_impl(est, c, r)
+        cases.append(c)
+        recs.append(r)
+        cm = st["custom_metric"]
+        cm["cases"] += 1
+        cm["kinds"][c["metric"]["kind"]] = cm["kinds"].get(c["metric"]["kind"], 0) + 1
+        cm["periodic"] += c["cell"] is not None
+        if "labels" in r:
+            D_, G_, _Q, _w, cell_ = K._arrays(c)
+            deflab = [int(np.argmin([float(np.sum(K.pbc_delta(p_, g_, cell_) ** 2)) for g_ in G_])) for p_ in D_]
+            cm["labels_differ_from_default"] += deflab != r["labels"]
+            mc = r.get("metric_calls")
+            cm["metric_calls_min"] = mc if cm["metric_calls_min"] is None else min(mc, cm["metric_calls_min"])
     # ---- histories on one object: every fit of a history is ALSO an ordinary case (fresh object) ----
     hists = []
     for _ in range(40 if ctx.quick else 400):
@@ -364,6 +497,10 @@ def part_bc(ctx, stats):
             report("bandwidth", msg, c, r, key=bandwidth_key(c, r, msg))
             continue
         if "error" in r:
+            continue
+        msg = K.oracle_state(c, r)
+        if msg:
+            report("assignment", msg, c, r)
             continue
         msg = K.oracle_mixture(c, r)
         if msg:
@@ -621,6 +758,9 @@ def part_c(ctx, cases, recs, st):
         if any(g.get("eig") is None or any(abs(z.imag) > 0 for z in g["eig"]) for g in r["grids"]):
             st["bw_skipped_complex_eig"] += 1
             continue
+        if c.get("metric") and c["metric"]["kind"] != "perm" and "fspread" in c["kw"]:
+            st["bw_skipped_custom_metric_mindist"] = st.get("bw_skipped_custom_metric_mindist", 0) + 1
+            continue          # the spread tuner takes min_grid_dist from the CHOSEN metric; fit_bandwidths uses the default
         if K.borderline(c, r):
             st["bw_skipped_borderline"] += 1
             continue
@@ -663,6 +803,9 @@ def check_fit_case(c, rng, timeout=10):
     if est is None:
         return out, r
     K.score_impl(est, c, r)
+    msg = K.oracle_state(c, r)
+    if msg:
+        return [("assignment", msg, None, None)], r
     msg = K.oracle_mixture(c, r)
     if msg:
         return [("mixture", msg, None, None)], r
@@ -729,6 +872,7 @@ def run(ctx):
     po = C.proof_obligations(ctx.prop)
     stats = {}
     casesA, recsA = part_a(ctx, stats)
+    AM = part_am(ctx, stats)
     casesB, recsB = part_bc(ctx, stats)
     if not po["ok"]:
         C.report_violation(ctx, "proof obligations of Properties/C17.v not discharged",
@@ -756,15 +900,16 @@ def run(ctx):
                    "binary64 is exact on the dyadic exactness domain of part A (sums of squares of small dyadics; weights with a power-of-two total)",
                    "the binary64 exp/log/sin/cos/atan2/rint of Model/SparseKDEA.v (self-tested against numpy on every run)",
                    "numpy.linalg inv/slogdet/eigvals results enter as hints whose defining equations are re-checked inside Coq (residuals recorded)"],
-               evaluations=A["cases"] + B["cases"] + B["queries"],
-               distinct_nontrivial=A["nontrivial"] + B["kde_validated"] + B["bw_validated"],
-               rule="part A: distinct input with >= 2 grid points and >= 2 distinct labels; parts B/C: distinct fitted "
+               evaluations=A["cases"] + AM["cases"] + B["cases"] + B["queries"],
+               distinct_nontrivial=A["nontrivial"] + AM["nontrivial"] + B["kde_validated"] + B["bw_validated"],
+               rule="part A: distinct input with >= 2 grid points and >= 2 distinct labels (custom-metric family: and "
+                    "labels different from the default metric's); parts B/C: distinct fitted "
                     "estimators (>= 2 distinct grid points, 8+ descriptors) whose mixture values / bandwidths were "
                     "reproduced by the Coq model within rtol 2^-27 (every fit of a generated history counts as one "
                     "such estimator; the histories themselves - one object, state machine of Model/SparseKDEH.v - are "
                     "counted under distribution.mixture_bandwidth.histories)",
-               traces_validated_against_impl=A["validated"] + B["kde_validated"] + B["bw_validated"]
-               + B["histories"]["validated"],
+               traces_validated_against_impl=A["validated"] + AM["validated"] + B["kde_validated"]
+               + B["bw_validated"] + B["histories"]["validated"],
                samples=samples, distribution=stats, anchor_drift=changed)
     return C.finish(ctx, "proof", cov, [
         "layer D is exact over Z/Q; rounding outside the dyadic domain is not covered",
